@@ -22,6 +22,7 @@ type baseCockpit struct {
 	w       io.Writer
 	tasks   []*task.Task
 	mu      sync.Mutex
+	smu     sync.Mutex
 	spinner *spinner.Spinner
 	charSet int
 	closeCh chan bool
@@ -71,18 +72,23 @@ func (b *baseCockpit) add(t *task.Task) {
 
 func (b *baseCockpit) remove(t *task.Task) {
 	b.mu.Lock()
-	defer b.mu.Unlock()
-
 	for k, v := range b.tasks {
 		if v == t {
 			b.tasks = append(b.tasks[:k], b.tasks[k+1:]...)
 		}
 	}
+	started := b.spinner != nil
+	b.mu.Unlock()
 
 	// a task that was skipped or failed before its output started never started the spinner
-	if b.spinner == nil {
+	if !started {
 		return
 	}
+
+	// the spinner calls PreUpdate, which takes b.mu, while holding its own lock:
+	// restart it without holding b.mu
+	b.smu.Lock()
+	defer b.smu.Unlock()
 
 	var mark = aurora.Green("✔")
 	if t.Errored {
